@@ -8,19 +8,33 @@ manages polling based on target capacity and re-polls after work completion.
 from __future__ import annotations
 
 import logging
-from dataclasses import dataclass
+from dataclasses import dataclass, field
 from typing import TYPE_CHECKING
 
 from happysimulator.components.queue import QueueDeliverEvent, QueueNotifyEvent, QueuePollEvent
 from happysimulator.core.entity import Entity
+from happysimulator.core.event import Event
 
 if TYPE_CHECKING:
     from collections.abc import Generator
 
-    from happysimulator.core.event import Event
     from happysimulator.core.temporal import Instant
 
 logger = logging.getLogger(__name__)
+
+
+class QueueDispatchedEvent(Event):
+    """Driver's note to itself, scheduled right behind a dispatched work item.
+
+    Events at one instant are delivered in creation order and the work item
+    was created before this note, so when the note is handled the item has
+    reached the target and ``target.has_capacity()`` accounts for it.
+    """
+
+    __slots__ = ()
+
+    def __init__(self, *, time: Instant, target, **kwargs):
+        super().__init__(time=time, event_type="QUEUE_DISPATCHED", target=target, **kwargs)
 
 
 @dataclass
@@ -34,9 +48,16 @@ class QueueDriver(Entity):
     Event flow:
     1. Queue sends QueueNotifyEvent when items are available
     2. Driver checks target.has_capacity() and polls if ready
-    3. Queue sends QueueDeliverEvent with payload
-    4. Driver retargets payload to target and schedules it
-    5. On completion, driver re-polls if target has capacity
+    3. Queue sends QueueDeliverEvent with payload (or an empty one)
+    4. Driver retargets payload to target and schedules it, followed by a
+       QueueDispatchedEvent to itself
+    5. On that event, and on completion of work, driver re-polls if the
+       target has capacity
+
+    Only one poll/deliver/dispatch round trip is in flight at a time: between
+    the capacity check and the moment the dispatched item reaches the target,
+    ``target.has_capacity()`` does not yet count that item, so a second poll
+    in that window would dequeue an item for a slot that is about to be taken.
 
     Attributes:
         name: Identifier for logging.
@@ -47,6 +68,10 @@ class QueueDriver(Entity):
     name: str = "QueueDriver"
     queue: Entity = None
     target: Entity = None
+    # A poll -> deliver -> dispatch round trip is in flight.
+    _busy: bool = field(default=False, init=False, repr=False)
+    # A notify arrived while busy; poll again if the round trip ends empty.
+    _recheck: bool = field(default=False, init=False, repr=False)
 
     def downstream_entities(self) -> list[Entity]:
         result: list[Entity] = []
@@ -61,12 +86,38 @@ class QueueDriver(Entity):
         if isinstance(event, QueueDeliverEvent):
             return self._handle_delivery(event)
 
+        if isinstance(event, QueueDispatchedEvent):
+            return self._handle_dispatched()
+
         return []
+
+    def _poll_if_ready(self, time: Instant) -> QueuePollEvent | None:
+        """Poll the queue unless a round trip is in flight or the target is full."""
+        if self._busy:
+            self._recheck = True
+            return None
+        if not self.target.has_capacity():
+            logger.debug("[%s] Target at capacity, deferring poll", self.name)
+            return None
+        logger.debug("[%s] Target has capacity, scheduling poll", self.name)
+        self._busy = True
+        self._recheck = False
+        return QueuePollEvent(time=time, target=self.queue, requestor=self)
+
+    def _handle_dispatched(self) -> list[Event]:
+        """The dispatched item has reached the target: fill the next free slot."""
+        self._busy = False
+        poll = self._poll_if_ready(self.now)
+        return [poll] if poll is not None else []
 
     def _handle_delivery(self, event: QueueDeliverEvent) -> list[Event]:
         """Queue delivered one payload event; clone/retarget and re-emit."""
         if event.payload is None:
             logger.debug("[%s] Received empty delivery", self.name)
+            self._busy = False
+            if self._recheck:
+                poll = self._poll_if_ready(self.now)
+                return [poll] if poll is not None else []
             return []
         logger.debug(
             "[%s] Received delivery: type=%s, forwarding to target",
@@ -77,23 +128,15 @@ class QueueDriver(Entity):
 
     def _handle_work_payload(self, payload: Event) -> list[Event]:
         def schedule_poll(time: Instant):
-            if self.target.has_capacity():
-                logger.debug("[%s] Target has capacity, scheduling poll", self.name)
-                return QueuePollEvent(time=time, target=self.queue, requestor=self)
-            logger.debug("[%s] Target at capacity, deferring poll", self.name)
-            return None
+            return self._poll_if_ready(time)
 
         target_event = payload
         target_event.time = self.now
         target_event.target = self.target
         target_event.add_completion_hook(schedule_poll)
-        return [target_event]
+        return [target_event, QueueDispatchedEvent(time=self.now, target=self)]
 
     def _handle_notify(self, _: QueueNotifyEvent) -> list[Event]:
         """Queue has work available—poll if target has capacity."""
-        if not self.target.has_capacity():
-            logger.debug("[%s] Notify received but target at capacity", self.name)
-            return []
-
-        logger.debug("[%s] Notify received, polling queue", self.name)
-        return [QueuePollEvent(time=self.now, target=self.queue, requestor=self)]
+        poll = self._poll_if_ready(self.now)
+        return [poll] if poll is not None else []
